@@ -36,7 +36,7 @@ def confirm(prop, res):
             mism.append({"profile": profile, "panic": dumps[0]["_panic"]})
             continue
         for k, (d, e) in enumerate(zip(dumps, expected)):
-            bad = rpl.compare(d, e, rel=1e-9, scale=info.get("scale", 1.0) * 1e-3)
+            bad = rpl.compare(d, e, rel=1e-9, scale=info.get("scale", 1.0))
             if bad:
                 mism.append({"profile": profile, "dump": k, "mismatch": [(n, a, x) for (n, a, x) in bad[:6]]})
     if not mism:
@@ -62,7 +62,7 @@ def replay_file(path):
                 print(profile, "panic", d["_panic"])
                 bad_total += 1
                 continue
-            bad = rpl.compare(d, e, rel=1e-9, scale=rec.get("info", {}).get("scale", 1.0) * 1e-3)
+            bad = rpl.compare(d, e, rel=1e-9, scale=rec.get("info", {}).get("scale", 1.0))
             for (n, a, x) in bad:
                 print("%s dump %d: %s = %r, exact %r" % (profile, k, n, a, x))
             bad_total += len(bad)
